@@ -156,6 +156,13 @@ Traffic(i, c, a) ==
     /\ cst' = [cst EXCEPT ![c] = IF a = "close" THEN "closed" ELSE @]
     /\ lst' = [lst EXCEPT ![i] = IF a = "shutdown" THEN "closing" ELSE @]
     /\ UNCHANGED <<ctx, backlog, made, lnOpen, loopOf, q, tk, tickShut, stop, trig, inShutdown, returned, nShut, regres, rr>>
+\* the rest of a callback that has closed its own connection (EventLoop.Close from inside OnTraffic: its OnClose
+\* has run, the connection is gone) and then answers Shutdown: the action of a callback counts whatever the
+\* callback did to its connection
+TrafficSelfClosed(i, c) ==
+    /\ i \in Loops /\ lst[i] = "polling" /\ cst[c] = "closed" /\ loopOf[c] = i /\ "shutdown" \in Actions("traffic")
+    /\ lst' = [lst EXCEPT ![i] = "closing"]
+    /\ UNCHANGED <<ctx, backlog, made, lnOpen, cst, loopOf, q, tk, tickShut, stop, trig, inShutdown, returned, nShut, regres, rr>>
 PeerClose(i, c, a) ==
     /\ i \in Loops /\ lst[i] = "polling" /\ c \in OpenOn(i) /\ a \in Actions("close") \ {"close"}
     /\ cst' = [cst EXCEPT ![c] = "closed"]
@@ -235,6 +242,7 @@ Next ==
     \/ \E i \in Loops, c \in Conns, a \in {"none", "close", "shutdown"} : RunReg(i, c, a)
     \/ \E i \in AllLoops : RunExit(i)
     \/ \E i \in Loops, c \in Conns, a \in {"close", "shutdown"} : Traffic(i, c, a)
+    \/ \E i \in Loops, c \in Conns : TrafficSelfClosed(i, c)
     \/ \E i \in Loops, c \in Conns, a \in {"none", "shutdown"} : PeerClose(i, c, a)
     \/ \E i \in AllLoops : LoopFail(i)
     \/ \E i \in Loops, c \in Conns : CloseOne(i, c)
